@@ -235,6 +235,26 @@ static void perturb(void)
 	}
 }
 
+/* ---- stale errno ---------------------------------------------------------
+ * A successful call leaves errno unspecified.  With VT_STALE_ERRNO=1 every wrapped call that succeeds leaves a
+ * plausible stale error code behind (as an earlier, unrelated failure in the same thread would have): code that looks
+ * at errno without having seen a failure is led astray.
+ */
+static int stale_errno;
+static __thread uint64_t stale_rng;
+static inline void errno_after(long r, int e)
+{
+	static const int stale[] = { EPERM, ENOSYS, EINTR, EAGAIN, ENOSYS, EBADF, EPERM, EINVAL, ENOENT, EINTR, EEXIST };
+	if (r >= 0 && stale_errno && !in_child) {
+		if (stale_rng == 0)
+			stale_rng = (case_seed * 0x9E3779B97F4A7C15ULL) | 1;
+		errno = stale[(xs(&stale_rng) >> 20) % (sizeof(stale) / sizeof(stale[0]))];
+		vt_stats.stale_errno++;
+	} else {
+		errno = e;
+	}
+}
+
 /* ---- fault plans ------------------------------------------------------- */
 #define MAXFAULT 16
 static struct fault { char name[24]; int err; uint64_t k; int plus; uint64_t fired; } faults[MAXFAULT];
@@ -715,6 +735,8 @@ int __wrap_clock_gettime(clockid_t id, struct timespec *ts)
 		int64_t v = V;
 		ts->tv_sec = v / VT_NS;
 		ts->tv_nsec = v % VT_NS;
+		if (stale_errno)
+			errno_after(0, errno);
 		return 0;
 	}
 	return __real_clock_gettime(id, ts);
@@ -1098,7 +1120,7 @@ out:
 	e = errno;
 	hk_wait_return(&w);
 	perturb();
-	errno = e;
+	errno_after(n, e);
 	return n;
 }
 
@@ -1232,7 +1254,7 @@ int __wrap_epoll_ctl(int epfd, int op, int fd, struct epoll_event *ev)
 	e = errno;
 	hk_epoll_ctl(epfd, op, fd, ev, r, e);
 	perturb();
-	errno = e;
+	errno_after(r, e);
 	return r;
 }
 
@@ -1266,7 +1288,7 @@ long __wrap_read(int fd, void *buf, size_t n)
 		vtfd[fd].fired = 0;
 	if (!in_child)
 		hk_read(fd, buf, n, r, e);
-	errno = e;
+	errno_after(r, e);
 	return r;
 }
 
@@ -1283,7 +1305,7 @@ long __wrap_write(int fd, const void *buf, size_t n)
 	e = errno;
 	if (!in_child)
 		hk_write(fd, buf, n, r, e, fl >= 0 && (fl & O_NONBLOCK));
-	errno = e;
+	errno_after(r, e);
 	return r;
 }
 
@@ -1296,7 +1318,7 @@ long __wrap_splice(int fdin, off_t *offin, int fdout, off_t *offout, size_t len,
 	r = __real_splice(fdin, offin, fdout, offout, len, flags);
 	e = errno;
 	hk_splice(fdin, fdout, len, r, e);
-	errno = e;
+	errno_after(r, e);
 	return r;
 }
 
@@ -1388,6 +1410,8 @@ void vt_init(void)
 		fprintf(stderr, "VT: bad fault plan %s\n", s);
 		_exit(2);
 	}
+	if ((s = getenv("VT_STALE_ERRNO")) != NULL && atoi(s) > 0)
+		stale_errno = 1;
 	if (getenv("VT_DEBUG"))
 		atexit(dbg_dump);
 	if ((s = getenv("VT_PERTURB")) != NULL)
